@@ -35,7 +35,7 @@ git -C "$W/tree" apply "$PATCH" || { echo "patch does not apply"; exit 2; }
 mkdir -p "$W/ev" "$W/rp"
 bad=0
 for id in $ids; do
-	out=$(VERIF_REPO="$W/tree" VERIF_EVIDENCE_DIR="$W/ev" VERIF_REPLAY_DIR="$W/rp" VERIF_BUDGET_S=${VERIF_BUDGET_S:-15} "$C/check" "$id" quick 2>&1)
+	out=$(VERIF_SCRATCH="$W/scratch" VERIF_REPO="$W/tree" VERIF_EVIDENCE_DIR="$W/ev" VERIF_REPLAY_DIR="$W/rp" VERIF_BUDGET_S=${VERIF_BUDGET_S:-15} "$C/check" "$id" quick 2>&1)
 	rc=$?
 	case $rc in
 	0) echo "$id: quiet" ;;
